@@ -28,7 +28,7 @@ TReset == /\ Is("header")
           /\ phase' = (IF WiringFails THEN "failed" ELSE "init")
           /\ q' = [port \in AllInPorts |-> <<>>]
           /\ ups' = [port \in AllInPorts |-> InitUps(port)]
-          /\ em' = [e \in EmIds |-> [i |-> 1, left |-> EmRemotes(e), wait |-> "", st |-> IF e \in Relays THEN "collect" ELSE "run"]]
+          /\ em' = [e \in EmIds |-> [i |-> 1, left |-> EmRemotes(e), wait |-> "", st |-> IF e \in Relays THEN "collect" ELSE "run", eof |-> FALSE]]
           /\ relayed' = [e \in Relays |-> <<>>]
           /\ rpc' = [n \in CmdRun |-> "idle"]
           /\ ctpc' = [n \in CmdRun |-> "off"]
